@@ -20,7 +20,8 @@ y = (x ** 2 + 2.5 * x).flatten()
 kw = dict(population_size=24, stack_size=10, generations=cfg["generations"], max_time=1e7, random_state=cfg["seed"],
           use_simplification=cfg["simp"])
 if cfg["ops"] is not None:
-    kw["operators"] = cfg["ops"]
+    # every collection type a caller may hand over; the unordered ones iterate in a hash-seed dependent order
+    kw["operators"] = {"list": list, "tuple": tuple, "set": set, "frozenset": frozenset}[cfg.get("ops_type", "list")](cfg["ops"])
 if cfg["ea"] is not None:
     kw["evolutionary_algorithm"] = cfg["ea"]
 reg = SymbolicRegressor(**kw)
@@ -77,9 +78,13 @@ def impl_main(payload):
 def hash_seed_fits(tier, seed):
     """fit in fresh interpreter processes under different PYTHONHASHSEEDs; same best equation / fitness bytes expected"""
     rng = random.Random(seed)
-    cfgs = [dict(ops=None, ea=None, simp=False), dict(ops=None, ea="GeneralizedCrowdingEA", simp=True)]
+    cfgs = [dict(ops=None, ea=None, simp=False), dict(ops=None, ea="GeneralizedCrowdingEA", simp=True),
+            dict(ops=["+", "-", "*", "sin", "cos", "exp"], ops_type="frozenset", ea=None, simp=False),
+            dict(ops=["+", "-", "*", "/", "sqrt", "cos"], ops_type="set", ea=None, simp=False)]
     if tier == "thorough":
         cfgs += [dict(ops=["+", "-", "*", "/", "sin"], ea=None, simp=True), dict(ops=None, ea=None, simp=True),
+                 dict(ops=["+", "-", "*", "/", "sin", "cos"], ops_type="tuple", ea=None, simp=False),
+                 dict(ops=["+", "*", "sin", "cos", "exp", "log"], ops_type="frozenset", ea="GeneralizedCrowdingEA", simp=True),
                  dict(ops=["+", "*", "cos"], ea="GeneralizedCrowdingEA", simp=False),
                  dict(ops=None, ea="GeneralizedCrowdingEA", simp=False)]
     hseeds = ["0", "1", "2", "11", "123", "4242"]
@@ -87,7 +92,7 @@ def hash_seed_fits(tier, seed):
     env.pop("OMP_NUM_THREADS", None)
     jobs = []
     for ci, cfg in enumerate(cfgs):
-        cfg = dict(cfg, generations=20, seed=rng.randrange(1000))
+        cfg = dict(cfg, generations=20, seed=(0 if ci == 1 else rng.randrange(1000)))      # random_state = 0 is a seed like any other
         for hs in hseeds:
             e = dict(env)
             e["PYTHONHASHSEED"] = hs
